@@ -472,6 +472,7 @@ func mPoolGet(e *Engine, a []Value) Value {
 	if len(st) > 0 {
 		v := st[len(st)-1]
 		e.pools[p] = st[:len(st)-1]
+		e.ownPooled(v, false)
 		return v
 	}
 	nf := poolNew(p)
@@ -490,7 +491,74 @@ func mPoolPut(e *Engine, a []Value) Value {
 		}
 	}
 	e.pools[p] = append(e.pools[p], a[1])
+	e.ownPooled(a[1], true)
 	return nil
+}
+
+// ownPooled marks (in=true) or unmarks the memory reachable from an object handed to sync.Pool.Put:
+// until Get returns it, it belongs to the pool, i.e. to whichever goroutine takes it next. Any access
+// to it by the releasing call is a use-after-release (ownership violation). Only tracked during the
+// concurrent phase of a discipline harness.
+func (e *Engine) ownPooled(v Value, in bool) {
+	if !e.ls.on && in {
+		return
+	}
+	if e.inPool == nil {
+		e.inPool = map[*Value]bool{}
+	}
+	seen := map[*Value]bool{}
+	var walk func(v Value, depth int)
+	mark := func(c *Value) bool {
+		if c == nil || seen[c] {
+			return false
+		}
+		seen[c] = true
+		if in {
+			e.inPool[c] = true
+		} else {
+			delete(e.inPool, c)
+		}
+		return true
+	}
+	walk = func(v Value, depth int) {
+		switch x := v.(type) {
+		case Iface:
+			walk(x.V, depth)
+		case *Value:
+			// only the pooled object itself: objects it merely points to are not handed to the pool
+			if depth == 0 && mark(x) {
+				walk(*x, 1)
+			}
+		case Struct:
+			for i := range x {
+				if mark(&x[i]) {
+					walk(x[i], depth+1)
+				}
+			}
+		case Array:
+			for i := range x {
+				if mark(&x[i]) {
+					walk(x[i], depth+1)
+				}
+			}
+		case Slice:
+			// the backing array a pooled object keeps is reused by the next owner
+			if x.Nil || x.A == nil {
+				return
+			}
+			for i := 0; i < x.Cap && x.Off+i < len(*x.A); i++ {
+				c := &(*x.A)[x.Off+i]
+				if mark(c) {
+					if s, ok := (*c).(Struct); ok {
+						for j := range s {
+							mark(&s[j])
+						}
+					}
+				}
+			}
+		}
+	}
+	walk(v, 0)
 }
 
 func (e *Engine) nextVec() uint64 {
